@@ -41,6 +41,37 @@ impl fmt::Display for GraphiQLVersion<'_> {
     }
 }
 
+/// Writes a configured string as the body of a single-quoted JavaScript string
+/// literal placed inside an HTML `<script>` element.
+///
+/// Script content is not entity-decoded by browsers, so HTML escaping is the
+/// wrong tool here: quotes, backslashes and line terminators get JavaScript
+/// escapes, and `<` / `>` are written as `\x3C` / `\x3E` so that no value can
+/// form `</script>`, `<!--` or `-->`.
+struct JsStr<'a>(&'a str);
+
+impl fmt::Display for JsStr<'_> {
+    fn fmt(&self, f: &mut fmt::Formatter<'_>) -> fmt::Result {
+        use fmt::Write;
+
+        for c in self.0.chars() {
+            match c {
+                '\\' => f.write_str("\\\\")?,
+                '\'' => f.write_str("\\'")?,
+                '"' => f.write_str("\\\"")?,
+                '\n' => f.write_str("\\n")?,
+                '\r' => f.write_str("\\r")?,
+                '\u{2028}' => f.write_str("\\u2028")?,
+                '\u{2029}' => f.write_str("\\u2029")?,
+                '<' => f.write_str("\\x3C")?,
+                '>' => f.write_str("\\x3E")?,
+                c => f.write_char(c)?,
+            }
+        }
+        Ok(())
+    }
+}
+
 /// A builder for constructing a GraphiQL (v2) HTML page.
 ///
 /// # Example
